@@ -3,6 +3,7 @@ C12 — Containment follows the PostgreSQL @> rules, using the same equality as 
 `Spec.contains` is the rule set as a function on trees; `Fn.contains` the byte-level model.
 -/
 import JsonbModel.Proofs.ContainsLaws
+import JsonbModel.Proofs.ContainsRefine
 import JsonbModel.Functions.Order
 
 namespace Jsonb.Props
@@ -41,6 +42,19 @@ theorem C12_refl (a : JV) (h : good a = true) : contains a a = true := contains_
 theorem C12_trans {a b c : JV} (ha : good a = true) (hb : good b = true) (hc : good c = true)
     (h1 : contains a b = true) (h2 : contains b c = true) : contains a c = true :=
   contains_trans (numsWF_of_good a ha) (numsWF_of_good b hb) (numsWF_of_good c hc) h1 h2
+
+/-- **byte-level refinement**: on the encodings of any two good documents (any size, any depth)
+the byte walker `contains_jsonb` (offset arithmetic, `array_contains`, member search by key,
+`scalar_eq`) returns exactly the rule-based tree function; its `Err → false` conversion is never
+exercised; the fuel is adequate -/
+theorem C12_contains_refines (a b : JV) (ha : goodTop a = true) (hb : goodTop b = true) :
+    Fn.contains (encodeSpec a) (encodeSpec b) = .ok (contains a b) := Fn.contains_refines a b ha hb
+theorem C12_contains_no_error (a b : JV) (ha : goodTop a = true) (hb : goodTop b = true) :
+    Fn.containsJsonb (2 * ((encodeSpec a).length + (encodeSpec b).length) + 8) (encodeSpec a) (encodeSpec b)
+      = .ok (contains a b) := Fn.containsJsonb_no_error a b ha hb
+/-- hence the real layout-level function is reflexive on every good document -/
+theorem C12_bytes_refl (a : JV) (ha : good a = true) :
+    Fn.contains (encodeSpec a) (encodeSpec a) = .ok true := Fn.contains_bytes_refl a ha
 
 /-- numerically equal numbers match whatever their encoding (the defect repaired in /repo) -/
 example : contains (arr [num (.uint 1)]) (num (.float 0x3ff0000000000000)) = true := by decide
